@@ -144,6 +144,22 @@ def run(repo: Repo, rep: Report, tier: str) -> None:
                 why = "list/generator result keeps the iteration order"
             else:
                 why = f"{kind}() exposes the iteration order"
+                # taking "the" element of a set that is known to hold exactly one is order-free: `if len(s) == 1: return s.pop()` / next(iter(s))
+                if kind in ("pop", "next", "iter") and isinstance(it, ast.Name):
+                    from .util import cguards as _cg19, stmt_of as _so19
+                    single = any(pol and isinstance(gt := ast.parse(g, mode="eval").body, ast.Compare) and len(gt.ops) == 1 and isinstance(gt.ops[0], ast.Eq)
+                                 and norm(gt.left).startswith("len(") and norm(gt.comparators[0]) == "1" for g, pol in _cg19(f, _so19(f, n)))
+                    raw_single = False
+                    pm_s = pm
+                    cur_s = pm_s.get(_so19(f, n))
+                    while cur_s is not None and cur_s is not f.node:
+                        if isinstance(cur_s, ast.If) and isinstance(cur_s.test, ast.Compare) and isinstance(cur_s.test.ops[0], ast.Eq) and norm(cur_s.test.left) == f"len({it.id})" and norm(cur_s.test.comparators[0]) == "1" \
+                                and any(n is x for b_ in cur_s.body for x in ast.walk(b_)):
+                            raw_single = True
+                        cur_s = pm_s.get(cur_s)
+                    if raw_single:
+                        rep.ok("C19-R1", construct, f"under `len({it.id}) == 1`: a singleton has one order", f.loc(n))
+                        continue
             if key in ALLOW:
                 seen_allow.add(key)
                 rep.ok("C19-R1", construct, "allow-listed: " + ALLOW[key], f.loc(n))
